@@ -48,6 +48,8 @@ theorem same_transfer (w : World) (a b : Addr) (v : Nat) : SameLogCtx w (w.trans
 theorem same_suicide (w : World) (a : Addr) : SameLogCtx w (w.suicide a) := by
   unfold suicide; split <;> exact ⟨rfl, rfl, rfl⟩
 theorem same_setTransient (w : World) (a : Addr) (k v : Nat) : SameLogCtx w (w.setTransient a k v) := ⟨rfl, rfl, rfl⟩
+theorem same_selfdestructRefund (w : World) (a : Addr) : SameLogCtx w (w.selfdestructRefund a) := by
+  unfold selfdestructRefund; split <;> exact ⟨rfl, rfl, rfl⟩
 theorem same_addAccess (w : World) (a : Addr) : SameLogCtx w (w.addAccess a) := by
   unfold addAccess; split <;> exact ⟨rfl, rfl, rfl⟩
 
@@ -287,7 +289,8 @@ theorem run_extend (env : Env) (hrv : RevertRestoresObs env.rv) (hkc : RevertKee
     intro depth ro self w clogs tr
     rw [run]; split
     · exact LogsExtend.refl w
-    · exact LogsExtend.of_same ((World.same_addBalance _ _ _).trans (World.same_suicide _ _))
+    · exact LogsExtend.of_same (((World.same_selfdestructRefund _ _).trans (World.same_addBalance _ _ _)).trans
+        (World.same_suicide _ _))
   | call id kind target value body rest ihb ihr =>
     intro depth ro self w clogs tr
     rw [run]; split
